@@ -472,6 +472,41 @@ def special_forms(ctx):
                 ctx.event("enum_int_twin_hashes_equal")
         except Exception as e:  # noqa: BLE001
             ctx.violation("special", f"special-form-raises:{type(e).__name__}", dict(det, error=lib.exc_sig(e)))
+        # (d') two names of one enum value: members with the same value are equal, so structures holding them are equal
+        # and hash alike, whichever name each holds (given by name, looked up by value, parsed)
+        try:
+            ctx.cell("enum-field-holding-alias-members")
+            ctx.evaluation(("special-forms-enum-aliases", compiled))
+            ks = [cs.K(e=cs.E.Q, f=cs.F.X, x=5), cs.K(e=cs.E.R, f=cs.F.X, x=5), cs.K(e=cs.E(1), f=cs.F(1), x=5), cs.K(b"\x01\x01\x05")]
+            eq = all(p == q and q == p and not (p != q) for p in ks for q in ks)
+            if not eq or cs.E.Q != cs.E.R:
+                ctx.violation("special", "structures-holding-two-names-of-one-enum-value-are-unequal", det)
+            elif len({hash(k) for k in ks}) != 1 or hash(cs.E.Q) != hash(cs.E.R):
+                ctx.violation("special", "equal-structures-hash-differently-when-enum-fields-hold-two-names-of-one-value",
+                              dict(det, hashes=[hash(k) for k in ks]))
+            else:
+                ctx.event("enum_alias_twin_hashes_equal")
+        except Exception as e:  # noqa: BLE001
+            ctx.violation("special", f"special-form-raises:{type(e).__name__}", dict(det, error=lib.exc_sig(e)))
+        # (d'') the same definition loaded into another cstruct object is another structure type: never equal, in either
+        # direction, whatever the fields hold (same values, same bytes)
+        try:
+            ctx.cell("same-definition-in-another-cstruct-object")
+            ctx.evaluation(("special-forms-foreign-twin", compiled))
+            for e2, c2 in (("<", compiled), (">", compiled), ("<", not compiled)):
+                other_cs = lib.load(text, e2, False, c2)
+                for mk in (lambda c: c.In(a=1, b=2), lambda c: c.A(tag=b"abc", n=1, m=2), lambda c: c.K(e=1, f=1, x=5),
+                           lambda c: c.S(n=c.In(a=1, b=2), z=3), lambda c: c.In()):
+                    p, q = mk(cs), mk(other_cs)
+                    if (p == q) is not False or (q == p) is not False or (p != q) is not True or (q != p) is not True:
+                        ctx.violation("special", "instances-of-the-same-definition-in-two-cstruct-objects-compare-equal",
+                                      dict(det, other_endian=e2, other_compiled=c2, instance=repr(p)))
+                        raise StopIteration
+            ctx.event("foreign_twins_unequal")
+        except StopIteration:
+            pass
+        except Exception as e:  # noqa: BLE001
+            ctx.violation("special", f"special-form-raises:{type(e).__name__}", dict(det, error=lib.exc_sig(e)))
         # (e) values that are falsy without being the type's zero value: -0.0 in every float type (assigned, constructed
         # and parsed) is written as it is; an empty list is not a value of a fixed-size array
         # (f) an element of a default array of structures / of arrays is its own object: writing into one element of a
